@@ -33,7 +33,8 @@ RULE = ("per operation: exhaustive over strings of length 0..4 over {a,b} x patt
         "and random sequences of 1..8 (quick) / 1..20 (thorough) operations; "
         "non-trivial = at least one argument string is non-empty or a position is out of range")
 ASSUMPTIONS = ["byte strings without embedded NUL (C strings)", "LP64, size_t = 64 bit", "AtoI/AtoU: the digit string read fits the result type (int / unsigned; every run of at most 9 digits does) -- beyond that AtoI is signed overflow: same contract as atoi",
-               "StrNCpy/copyToBuffer/MemCmp are called with buffers at least as large as their contract requires"]
+               "StrNCpy/copyToBuffer/MemCmp are called with buffers at least as large as their contract requires",
+               "padding character and split delimiter are non-NUL bytes; inside operation sequences replace(char, char) does not write NUL (the single operation :replc does)"]
 ALPHA = [0x61, 0x62, 0x41, 0x42, 0x2e, 0x20, 0x0a, 0x09, 0x01, 0x7f, 0x80, 0xff, 0x31, 0x5a, 0x5b, 0x40, 0x7a, 0x0d, 0x07, 0x1f]
 TWO = ["a", "b", "A", "B"]
 GROUP1 = ["strlen", "strcmp", "strncmp", "strstr", "memcmp", "contains", "containsnc", "starts", "ends", "count", "eq", "eqnc", "find",
@@ -516,9 +517,15 @@ LEVEL_TEXT = ("Machine-checked (Coq) theorems over a bounds-checked executable m
               "(pointers are buffer suffixes, reads/writes outside a buffer are an explicit Oob result, loops are structural or fuelled): for every "
               "modelled operation and ALL byte strings / positions, the result is Ok (memory-safe, terminating, no UB) and equals the textbook "
               "list function. Tied to the code by a differential run of the extracted model against the real class under ASan/UBSan with exact-size "
-              "argument blocks, a recording string allocator (each buffer returned once with its size) and an independent std::string/libc reference.")
+              "argument blocks, a recording string allocator (each buffer returned once with its size) and an independent std::string/libc reference. "
+              "Allocation pairing: proved for every sequence of the buffer-management primitives executed by any number of objects whose lives interleave "
+              "(C13_pool_pairing), with the event log of padStringsToSameLength modelled event by event; observed by the recording allocator on EVERY scenario, "
+              "the window closing only after all objects of the scenario (arguments, results, temporaries, the collection of split, the three objects of an "
+              "operation sequence) are destroyed. Operation sequences on shared objects: every step Ok and textbook (C13_sequence_spec).")
 LEVEL_NOTE = ("Partial for memory safety: the proofs are about the bounds-checked model; real heap accesses are seen only by ASan in the run. Trusted: "
               "Coq kernel, extraction (ExtrOcamlBasic), harness, generators, LP64. Modelled not verified: the C++ itself; vsnprintf's formatting is an "
-              "oracle (decimal/hex rendering is specified and compared, not derived from libc).")
+              "oracle (decimal/hex rendering is specified and compared, not derived from libc). The values of split, subStringFromTill, StringFromMaskedBits and "
+              "StringFromBinary are judged by the textbook oracle and compared with the model on the runs only (value_proved = false: no theorem that the model "
+              "of these four returns the textbook value); their allocation pairing is covered like every other operation's.")
 TECHNIQUE = "Coq proof over hand-written bounds-checked executable model + extracted-model/implementation correspondence check (differential, ASan/UBSan, recording allocator, independent reference)"
 READY = True
